@@ -235,7 +235,7 @@ Definition update_status_v0 := update_status_with changed_v0.
 Definition update_status_fixed := update_status_with changed_fixed.
 
 (** THE SWITCH: the rule the correspondence check (Run/C12.v) runs against /repo. *)
-Definition update_status := update_status_v0.
+Definition update_status := update_status_fixed.
 
 Definition set_pod_node (s : store) (p n : positive) : store :=
   {| pods := map (fun x => if Pos.eqb (p_id x) p
